@@ -78,8 +78,11 @@ config = {"tool": {"ariadne-codegen": cfg}}
 for sub in ("first", "second", "edited"):
     if sub == "edited":
         # the operations file is edited in place: the next generation in this interpreter sees the new text
-        with open(os.path.join(root, "queries.graphql"), "a") as f:
-            f.write("\nquery AddedLater { me { id name } }\n")
+        # (one operation is removed, one is added: nothing of the earlier generations may survive in this one)
+        text = open(os.path.join(root, "queries.graphql")).read()
+        text = "\n".join(l for l in text.splitlines() if not l.startswith("query GetBalances")) + "\nquery AddedLater { me { id name } }\n"
+        with open(os.path.join(root, "queries.graphql"), "w") as f:
+            f.write(text)
     cfg["target_package_path"] = os.path.join(root, sub)
     os.makedirs(os.path.join(root, sub), exist_ok=True)
     with contextlib.redirect_stdout(io.StringIO()):
